@@ -212,6 +212,7 @@ uint64_t vf_probe_calls() { return g_probe.size(); }
 uint64_t vf_probe_arg(uint64_t call, uint64_t k) { return call < g_probe.size() ? g_probe[call][k] : 0; }
 void vf_probe_reset() { g_probe.clear(); }
 
+void vf_share(const void *) {}
 void vf_region_begin(int) {}
 void vf_region_end(int) {}
 uint64_t vf_region_outer_stores() { return 0; }
